@@ -174,7 +174,17 @@ class Gen08:
                 keys.append(k)
         hdrs = [{"k": hx(k), "v": {"t": IFACE, "v": {"t": T("string"), "v": hx(shared)}} if r.random() < 0.5
                  else self.cg.value_for(IFACE, pool)} for k in keys]
-        return {"family": family, "transport": transport, "pool": kw.get("pool", r.random() < 0.5), "copts": co, "sopts": so,
+        # response headers (set by a service-side plugin), sometimes sharing a string with the results
+        rhdrs = kw.get("rhdrs")
+        if rhdrs is None:
+            rhdrs = []
+            for k in [b"rk", shared, b"server"]:
+                if k and k != b"simple" and r.random() < 0.2:
+                    rhdrs.append({"k": hx(k), "v": {"t": IFACE, "v": {"t": T("string"), "v": hx(shared)}} if r.random() < 0.6
+                                  else self.cg.value_for(IFACE, pool)})
+        if kw.get("ref_mode"):
+            co["simple"], so["simple"] = False, False
+        return {"family": family, "transport": transport, "pool": kw.get("pool", r.random() < 0.5), "copts": co, "sopts": so, "rhdrs": rhdrs,
                 "types": types, "methods": methods, "via": via, "call": hx(wire), "proxy": proxy, "args": args, "want": want,
                 "hdrs": hdrs, "res": {"kind": kind, "values": values, "msg": hx(msg), "panic_type": panic_type},
                 "rtypes": rtypes, "rt_default": rt_default}
@@ -221,6 +231,22 @@ def gen_cases(ctx, reg):
                     for nres in (0, 1, 2):
                         cases.append(g.make("error-result-type", t, via=via, kind=kind, err=True, err_type=et, nres=nres,
                                             behave="script", missing=False, rmode="match"))
+        # response headers together with results that contain references (a repeated string, a shared pointer,
+        # a string that also occurs in the headers), reference mode on both sides
+        S, PI = T("string"), Ptr(Reg("Inner"))
+        rep = hx(b"hello world")
+        shapes = [([S, S], [{"t": S, "v": rep}, {"t": S, "v": rep}]),
+                  ([Slice(S)], [{"t": Slice(S), "v": [rep, hx(b"x"), rep, rep]}]),
+                  ([S, Slice(S), S], [{"t": S, "v": rep}, {"t": Slice(S), "v": [rep, rep]}, {"t": S, "v": hx(b"rk-value")}]),
+                  ([PI, PI], [{"t": PI, "v": {"id": 910001, "v": {"X": "5", "Y": rep}}}, {"t": PI, "v": {"ref": 910001}}]),
+                  ([Map(S, S)], [{"t": Map(S, S), "v": [[rep, rep]]}])]
+        for rtds, values in shapes:
+            for via in ("invoke", "proxy"):
+                rh = [{"k": hx(b"rk"), "v": {"t": IFACE, "v": {"t": S, "v": hx(b"rk-value")}}},
+                      {"k": hx(b"hello world"), "v": {"t": IFACE, "v": {"t": S, "v": rep}}}]
+                cases.append(g.make("response-headers-and-references", t, via=via, kind="values", behave="script", nres=len(rtds),
+                                    rtds=rtds, values=json.loads(json.dumps(values)), rmode="match", missing=False, rhdrs=rh,
+                                    ref_mode=True, err=True, err_type=""))
         # concurrent calls to different functions through one client
         for pool in (False, True):
             for _ in range(3 if quick else 10):
@@ -553,6 +579,12 @@ def compare(c, o, m):
         dis.append("name on the wire: model %s go %s" % (m.get("name"), o["name"]))
     if m.get("log") != fmt_log(o.get("log") or []):
         dis.append("invocation log: model %s go %s" % (m.get("log", "")[:300], fmt_log(o.get("log") or [])[:300]))
+    if any(e["v"].startswith("ERR") for e in (o.get("or_hdrs") or [])):
+        # a request header the service's options cannot decode: the call must fail without entering a function; which
+        # error text it fails with depends on where the io decoder stopped (C01/C06's business)
+        if not rem.get("failed") and not rem.get("has_panic"):
+            dis.append("model: the request headers cannot be decoded; the call succeeded")
+        return dis
     if any(x.get("err") for x in (o.get("or_res") or [])):
         return dis      # a result the plain io round trip cannot carry into the declared type either: C01/C06's business
     if re.search(r"\(bigfloat x(2b|2d)496e66\)", m.get("log", "") + " ".join(x.get("v", "") for x in (o.get("or_res") or []))):
